@@ -14,24 +14,24 @@ use serde_json::{json, Value};
 use std::fmt::Write;
 
 fn cap_word(c: &Capability) -> &'static str {
-    match c {
-        Capability::AG_UNCERTAIN => "uncertain1",
-        Capability::Reserved(_) => "reserved",
-        Capability::AG_GROUND => "ground",
-        Capability::AG_AIRBORNE => "airborne",
-        Capability::AG_UNCERTAIN2 => "uncertain2",
-        Capability::AG_UNCERTAIN3 => "airborne?",
-        #[allow(unreachable_patterns)]
+    // (variant names through the Debug text: see refdec::vname)
+    match refdec::vname(c).0.as_str() {
+        "AG_UNCERTAIN" => "uncertain1",
+        "Reserved" => "reserved",
+        "AG_GROUND" => "ground",
+        "AG_AIRBORNE" => "airborne",
+        "AG_UNCERTAIN2" => "uncertain2",
+        "AG_UNCERTAIN3" => "airborne?",
         _ => "<new variant>",
     }
 }
 
 fn fs_word(f: &FlightStatus) -> &'static str {
-    match f {
-        FlightStatus::NoAlertNoSPIAirborne | FlightStatus::AlertSPIAirborneGround | FlightStatus::NoAlertSPIAirborneGround => "airborne?",
-        FlightStatus::NoAlertNoSPIOnGround => "ground?",
-        FlightStatus::AlertNoSPIAirborne => "airborne",
-        FlightStatus::AlertNoSPIOnGround => "ground",
+    match refdec::vname(f).0.as_str() {
+        "NoAlertNoSPIAirborne" | "AlertSPIAirborneGround" | "NoAlertSPIAirborneGround" => "airborne?",
+        "NoAlertNoSPIOnGround" => "ground?",
+        "AlertNoSPIAirborne" => "airborne",
+        "AlertNoSPIOnGround" => "ground",
         _ => "reserved",
     }
 }
@@ -64,10 +64,9 @@ fn bds_text(b: &BDS, br: &mut Vec<String>) -> String {
 }
 
 fn sign_s(s: &Sign) -> &'static str {
-    match s {
-        Sign::Positive => "",
-        Sign::Negative => "-",
-        #[allow(unreachable_patterns)]
+    match refdec::vname(s).0.as_str() {
+        "Positive" => "",
+        "Negative" => "-",
         _ => "<new variant>",
     }
 }
@@ -101,13 +100,7 @@ fn om_text(om: &OperationalMode, br: &mut Vec<String>) -> String {
 }
 
 fn version_n(v: &ADSBVersion) -> u8 {
-    match v {
-        ADSBVersion::DOC9871AppendixA => 0,
-        ADSBVersion::DOC9871AppendixB => 1,
-        ADSBVersion::DOC9871AppendixC => 2,
-        #[allow(unreachable_patterns)]
-        _ => 99,
-    }
+    refdec::by_name(v, &[("DOC9871AppendixA", 0), ("DOC9871AppendixB", 1), ("DOC9871AppendixC", 2)]).min(99) as u8
 }
 
 fn altitude_block(a: &Altitude, br: &mut Vec<String>) -> String {
@@ -121,10 +114,9 @@ fn altitude_block(a: &Altitude, br: &mut Vec<String>) -> String {
             "None".to_string()
         }
     };
-    let odd = match a.odd_flag {
-        CPRFormat::Even => "even",
-        CPRFormat::Odd => "odd",
-        #[allow(unreachable_patterns)]
+    let odd = match refdec::vname(&a.odd_flag).0.as_str() {
+        "Even" => "even",
+        "Odd" => "odd",
         _ => "<new variant>",
     };
     br.push(format!("cpr:{odd}"));
@@ -152,12 +144,11 @@ fn me_text(me: &ME, icao: &ICAO, address_type: &str, capability: &Capability, is
         ME::AircraftIdentification(Identification { tc, ca, cn, .. }) => {
             br.push("me:ident".into());
             head(&mut f, "Aircraft identification and category", true);
-            let t = match tc {
-                TypeCoding::D => "D",
-                TypeCoding::C => "C",
-                TypeCoding::B => "B",
-                TypeCoding::A => "A",
-                #[allow(unreachable_patterns)]
+            let t = match refdec::vname(tc).0.as_str() {
+                "D" => "D",
+                "C" => "C",
+                "B" => "B",
+                "A" => "A",
                 _ => "<new variant>",
             };
             br.push(format!("cat:{t}"));
@@ -181,10 +172,9 @@ fn me_text(me: &ME, icao: &ICAO, address_type: &str, capability: &Capability, is
                 br.push(format!("gnss_sign:{}", sign_s(&v.gnss_sign)));
                 if let Some((heading, ground_speed, vertical_rate)) = v.calculate() {
                     br.push("calc:some".into());
-                    let src = match v.vrate_src {
-                        VerticalRateSource::BarometricPressureAltitude => "barometric",
-                        VerticalRateSource::GeometricAltitude => "GNSS",
-                        #[allow(unreachable_patterns)]
+                    let src = match refdec::vname(&v.vrate_src).0.as_str() {
+                        "BarometricPressureAltitude" => "barometric",
+                        "GeometricAltitude" => "GNSS",
                         _ => "<new variant>",
                     };
                     br.push(format!("vrsrc:{src}"));
@@ -233,16 +223,15 @@ fn me_text(me: &ME, icao: &ICAO, address_type: &str, capability: &Capability, is
         ME::AircraftStatus(AircraftStatus { emergency_state, squawk, .. }) => {
             br.push("me:status".into());
             head(&mut f, "Emergency/priority status", true);
-            let e = match emergency_state {
-                EmergencyState::None => "no emergency",
-                EmergencyState::General => "general",
-                EmergencyState::Lifeguard => "lifeguard",
-                EmergencyState::MinimumFuel => "minimum fuel",
-                EmergencyState::NoCommunication => "no communication",
-                EmergencyState::UnlawfulInterference => "unflawful interference",
-                EmergencyState::DownedAircraft => "downed aircraft",
-                EmergencyState::Reserved2 => "reserved2",
-                #[allow(unreachable_patterns)]
+            let e = match refdec::vname(emergency_state).0.as_str() {
+                "None" => "no emergency",
+                "General" => "general",
+                "Lifeguard" => "lifeguard",
+                "MinimumFuel" => "minimum fuel",
+                "NoCommunication" => "no communication",
+                "UnlawfulInterference" => "unflawful interference",
+                "DownedAircraft" => "downed aircraft",
+                "Reserved2" => "reserved2",
                 _ => "<new variant>",
             };
             br.push(format!("emergency:{e}"));
